@@ -181,3 +181,31 @@ PROPS['C01']['theorems'] += ['C16.C16_roundtrip', 'Wire.dec_enc']
 PROPS['C01']['claimed'] = True
 PROPS['C01']['rule'] += ('; plus seeded (schema, value) pairs (nested options/sequences/tuples/enums/strings/ints, with embedded endpoints) sent through the real '
                          'IpcSender::send: wire bytes compared with the model encoder and the received value with the model decoder')
+
+
+def search_side(run):
+    for k in range(3):
+        rc, cases, err = vh(['wire', '--mode', 'side', '--seed', str(500 + k), '--n', '3000'])
+        bad = [c for c in cases if c.get('oracle')]
+        if bad:
+            return {'implementation': bad[0], 'replay_cmd': f'harness/target-default/debug/vh wire --mode side --seed {500 + k} --n 3000'}
+    return None
+
+
+PROPS['C14'] = {
+    'modules': ['IpcModel.Props.C14'],
+    'theorems': ['C14.C14_tables', 'C14.C14_own', 'C14.C14_self_contained', 'C14.C14_fail', 'Side.ser_spec', 'Side.ipcSend_restores'],
+    'scenarios': wire_scen('side', 1600, 40000),
+    'search': search_side,
+    'rule': ('seeded serialisation programs: 1-2 top-level sends of 1..5 nodes {data, sender, receiver, region, empty region, fail, nested send '
+             '(depth <= 2, on transports whose receiver may be gone so that the OS send fails)} followed by a plain follow-on message on the same thread; '
+             'non-trivial = contains a nested send, a failing node or a failing transport; distinct = distinct program text'),
+    'explanation': ('tables restored on every path, own attachments only, every message self-contained: proved for all programs of any depth; real crate '
+                    'compared with the model on the bytes and attachment identity of every OS-level message (tapped), results of inner and outer sends, and '
+                    'the no-trace oracle (all embedded channels disconnect once handles and messages are dropped)'),
+    'assumptions': ['a nested Serialize impl ignores the inner send result (as the harness value does)', 'release of partial attachments is Rust ownership (observed, not proved)'],
+    'level_text': ('Kernel-checked: IpcSender::send model restores the thread-local tables on success, serialisation failure, OS failure and at every nesting depth; '
+                   'each message carries exactly its own attachments with correct indices; tied to the real send by tapping every OS-level message of random '
+                   'nested/failing serialisation programs'),
+    'level_note': 'Trusted: Lean kernel, harness; the model of send() is hand-written and tied by correspondence (tokens, attachments, results); Drop-based release observed only',
+}
